@@ -100,7 +100,7 @@ func main() {
 		}
 	}
 
-	n := hv.Scale(1200, 30000)
+	n := hv.Scale(1100, 30000)
 	for c := 0; c < n; c++ {
 		class := hv.Pick(r, []string{"file-only", "file-only", "grants", "grants", "mixed", "mixed", "long-line"})
 		if class == "long-line" && !r.Chance(8) {
@@ -290,6 +290,49 @@ func main() {
 			}
 		}
 		hs = append(hs, hist{"rotate-in-place", ops})
+	}
+	// near-entries built from the client's own key: the line is the only thing that could admit
+	// the client, and it is not a well-formed entry (unless the shape happens to coincide with the
+	// canonical text, which the oracle's own parser then recognises)
+	nearHist := func(shape string, t int, placement int, u string) hist {
+		var lines []string
+		others := []int{}
+		for k := 0; k < 4; k++ {
+			if k != t {
+				others = append(others, k)
+			}
+		}
+		bad := ax.NearEntry(shape, pool[t])
+		switch placement {
+		case 0: // the only line
+			lines = []string{bad}
+		case 1: // after valid lines
+			lines = []string{ax.KeyLine(pool[others[0]]), ax.KeyLine(pool[others[1]]), bad}
+		case 2: // before valid lines
+			lines = []string{bad, ax.KeyLine(pool[others[0]])}
+		default: // between
+			lines = []string{ax.KeyLine(pool[others[1]]), bad, ax.KeyLine(pool[others[0]])}
+		}
+		content := strings.Join(lines, "\n")
+		if placement != 2 {
+			content += "\n"
+		}
+		ops := []*ax.Op{
+			{Kind: "SF", User: u, FKind: ax.FFile, Content: []byte(content)},
+			{Kind: "LG", User: u, Key: t}, {Kind: "AK", User: u, Key: t}, {Kind: "LG", User: u, Key: others[0]},
+			// the same bytes in a repaired file do admit the client, and only that client
+			{Kind: "SF", User: u, FKind: ax.FFile, Content: []byte(ax.KeyLine(pool[t]) + "\n")},
+			{Kind: "LG", User: u, Key: t}, {Kind: "LG", User: u, Key: others[0]},
+		}
+		return hist{"near-entry-of-client-key", ops}
+	}
+	// every shape once with a fixed placement rotation (deterministic part), then random combinations
+	for i, shape := range ax.NearEntryShapes {
+		hs = append(hs, nearHist(shape, i%len(pool), i%4, users[i%3]))
+		hs = append(hs, nearHist(shape, (i+3)%len(pool), (i+1)%4, users[(i+1)%3]))
+	}
+	for c, nn := 0, hv.Scale(150, 4000); c < nn; c++ {
+		hs = append(hs, nearHist(hv.Pick(r, ax.NearEntryShapes), r.Intn(len(pool)), r.Intn(4), hv.Pick(r, users)))
 	}
 	cases := make([]func(), len(hs))
 	for i := range hs {
